@@ -333,6 +333,11 @@ def _check_workers(pool, pids0):
         raise HarnessError("a worker process of the check died (pids %s gone): its task is lost; re-run the check" % sorted(pids0 - now))
 
 
+def _apply_chunk(args):
+    fn, chunk = args
+    return [fn(x) for x in chunk]
+
+
 def pmap(fn, items, jobs=None, chunksize=1):
     """Ordered parallel map over processes (fork); fn must be a top-level function."""
     import multiprocessing as mp
@@ -357,16 +362,20 @@ def pimap(fn, items, jobs=None, chunksize=1):
     pool = ctx.Pool(jobs)
     try:
         pids0 = _pool_pids(pool)
-        it = pool.imap(fn, items, chunksize)
+        # chunks are made here (imap with chunksize > 1 returns a plain generator without a timed next())
+        items = list(items)
+        chunks = [(fn, items[i:i + chunksize]) for i in range(0, len(items), max(1, chunksize))]
+        it = pool.imap(_apply_chunk, chunks, 1)
         while True:
             try:
-                r = it.next(timeout=1.0)
+                rs = it.next(timeout=1.0)
             except mp.TimeoutError:
                 _check_workers(pool, pids0)
                 continue
             except StopIteration:
                 break
-            yield r
+            for r in rs:
+                yield r
     finally:
         # leaving the loop early (exception, break) can leave terminate()/join() waiting on a worker that is
         # blocked on a full pipe: do the shutdown in a helper thread and stop waiting for it after a while
